@@ -456,6 +456,11 @@ static MinkShapes makeMinkShapes() {
     r.A.push_back(mkSolid(s.name, s.m.Translate(-s.q + vec3(0.05, -0.04, 0.03)), s.convex));
     r.B.push_back(mkSolid(std::string("0.3*") + s.name, s.m.Translate(-s.q).Scale(vec3(0.3)).Translate({0.02, -0.03, 0.01}), s.convex));
   }
+  // a non-convex first operand with more than 1000 triangles: the sweep works through the triangles in batches of 1000
+  {
+    Manifold big = Manifold::Sphere(1, 48) - Manifold::Cube({0.5, 3, 0.5}).Translate({0.55, -1.5, 0.55});
+    r.A.push_back(mkSolid("notchSphere48", big.Translate({0.05, -0.04, 0.03}), false));
+  }
   return r;
 }
 
@@ -811,9 +816,10 @@ int main(int argc, char** argv) {
     std::vector<const char*> MC = {"cases", "vertex_sums", "samples_in_operand", "sample_plus_vertex", "samples_in_sum", "diff_empty", "diff_vertices",
                                    "samples_in_diff", "erosion_probes"};
     const int n = asanSubset ? 7 : thorough ? 21 : 13, nY = asanSubset ? 4 : thorough ? 9 : 6;
-    R.phase("minkowski", 5 * 5 * 2 * 2, 1, [&](uint64_t idx, Ctx& c) {
+    R.phase("minkowski", 6 * 5 * 2 * 2, 1, [&](uint64_t idx, Ctx& c) {
       static MinkShapes MS = makeMinkShapes();
-      auto d = digits(idx, {5, 5, 2, 2});  // A, B, op, order
+      auto d = digits(idx, {6, 5, 2, 2});  // A, B, op, order
+      if (d[0] == 5 && (d[3] == 1 || MS.B[d[1]].convex == false)) return;  // the large operand is swept by the convex small ones only
       const Solid& X = d[3] ? MS.B[d[1]] : MS.A[d[0]];
       const Solid& Y = d[3] ? MS.A[d[0]] : MS.B[d[1]];
       std::string key = X.name + (d[2] ? ".MinkowskiDifference(" : ".MinkowskiSum(") + Y.name + ")";
